@@ -416,13 +416,15 @@ def setter_and_equality_rules(ctx, prefix="R1"):
         for u in w.updates:
             if "'_coord'" in u or '"_coord"' in u:
                 n_st += 1
-                if key("value.shape[-2] == self._array_length") not in w.conds:
+                # (the test may be written on `value.shape[-2]`, on a local that holds it, on `len(..)`: what counts is an EQUALITY with the
+                # array length that holds on this way)
+                if not any(c_.startswith("('==',") and "_array_length" in c_ for c_ in w.conds):
                     bad.append("coordinates are stored on a way that has not compared their atom axis with the array length")
-                if key("value.shape[-1] == 3") not in w.conds:
+                if not any(c_.startswith("('==',") and "('const', 3)" in c_ for c_ in w.conds):
                     bad.append("coordinates are stored on a way that has not asked for three columns")
             if ("'_bonds', value" in u or '"_bonds", value' in u):
                 n_st += 1
-                if key("value.get_atom_count() == self._array_length") not in w.conds:
+                if not any(c_.startswith("('==',") and "_array_length" in c_ for c_ in w.conds):
                     bad.append("a bond list is stored on a way that has not compared its atom count with the array length")
     ctx.need(n_st >= 2, "the stores of _coord and _bonds in _AtomArrayBase.__setattr__")
     ctx.ob(f"{prefix}.assigned-parts-have-the-array-length", ATOMS, "_AtomArrayBase.__setattr__", f"{n_st} storing way(s)", not bad,
@@ -433,12 +435,34 @@ def setter_and_equality_rules(ctx, prefix="R1"):
     k_self, k_item = key("self._box is None"), key(f"{other}._box is None")
     k_same = {key(f"np.array_equal(self._box, {other}._box)"), key(f"np.array_equal({other}._box, self._box)")}
     bad_eq, n_eq = [], 0
-    for w in machine.ways(eq.body, machine.assigned_names(eq)):
+    import itertools as _it
+
+    def alternatives(conds):
+        """a condition that is a disjunction holds because ONE of its parts holds: every choice of parts is a way of its own"""
+        opts = []
+        for c_ in conds:
+            try:
+                t_ = ast.literal_eval(c_)
+            except (ValueError, SyntaxError):
+                t_ = None
+            opts.append([repr(x) for x in t_[1:]] if isinstance(t_, tuple) and t_ and t_[0] == "or" else [c_])
+        for combo in _it.islice(_it.product(*opts), 64):
+            yield frozenset(combo)
+    expanded = [(w.exit, cs) for w in machine.ways(eq.body, machine.assigned_names(eq)) for cs in alternatives(w.conds)]
+    for exit_, conds_ in expanded:
+        class w:            # noqa: N801  (the loop below reads .exit / .conds)
+            exit = exit_
+            conds = conds_
         if w.exit == "return False":
             continue
         n_eq += 1
-        if not ((k_self in w.conds and k_item in w.conds) or (k_same & w.conds)):
-            bad_eq.append(sorted(c_ for c_ in w.conds if "_box" in c_))
+        if (k_self in w.conds and k_item in w.conds) or (k_same & w.conds):
+            continue
+        box_conds = sorted(c_ for c_ in w.conds if "box" in c_)
+        if not box_conds or all(f"'{other}'" not in c_ for c_ in box_conds):
+            bad_eq.append(box_conds)        # the way knows nothing about the OTHER container's box
+        else:
+            ctx.cannot_decide(False, f"_AtomArrayBase.__eq__ compares the boxes in a form this rule does not read: {box_conds}")
     ctx.need(n_eq >= 1, "the ways of _AtomArrayBase.__eq__ that can answer True")
     ctx.ob(f"{prefix}.equality-compares-boxes-both-ways", ATOMS, "_AtomArrayBase.__eq__", f"{n_eq} way(s) that are not `return False`", not bad_eq,
            f"a way to `True` knows about the boxes only {bad_eq[:1]}: a container without a box equals one that has a box (and not the other way round)",
